@@ -2,11 +2,13 @@
 (***************************************************************************)
 (* The USD/CAD exchange-rate loader and its cache (properties C12, C13).   *)
 (*                                                                         *)
-(* World W = [pub, today, todayPub, force]:                                *)
+(* World W = [pub, today, todayPub, force, wr]:                                *)
 (*   pub       day -> rate published by the Bank of Canada for that day,   *)
 (*             NoRate where none was (weekends, holidays, the future);     *)
 (*   today     the date of the run; todayPub: today's rate is already out; *)
-(*   force     downloads are forced for this run.                          *)
+(*   force     downloads are forced for this run;                          *)
+(*   wr        the cache can be written (FALSE: every write fails, e.g. an *)
+(*             unwritable directory - the run goes on without caching).    *)
 (* Loader state C = [disk, hasDisk, mem, loaded, fresh, dl]:                                *)
 (*   disk[y]   the cached year (day -> rate, NoRate written as the zero    *)
 (*             placeholder), for the years in hasDisk; survives runs;      *)
@@ -65,8 +67,8 @@ Fill(W, y) ==
 (***************************************************************************)
 Download(W, C, y) ==
   LET f == Fill(W, y)
-  IN  [C EXCEPT !.disk[y] = f, !.hasDisk = @ \cup {y}, !.mem[y] = f, !.loaded = @ \cup {y},
-                !.fresh = @ \cup {y}, !.dl[y] = @ + 1]
+  IN  [C EXCEPT !.disk[y] = IF W.wr THEN f ELSE @, !.hasDisk = IF W.wr THEN @ \cup {y} ELSE @,
+                !.mem[y] = f, !.loaded = @ \cup {y}, !.fresh = @ \cup {y}, !.dl[y] = @ + 1]
 
 \* load year y because `target` is being looked up
 LoadYear(W, C, y, target) ==
